@@ -51,6 +51,14 @@ CLAIMS = {
          "DESIGN.md 5 C17",
          "Structural sufficient condition for absence of fork-introduced data races between EVM instances: fork code shares no mutable package-level state, shared precompile instances never write their receiver, the code touching the shared tables, pool and abort flag is the reference's, the abort flag is a sync/atomic.Bool accessed only through its methods.",
          "does not decide races inside StateDB or the Aspect runtime, nor how promptly a cancelled execution stops (timing). " + TRUST),
+ "C12": ("SSA effect summaries of the eight journal instructions resolved from the table; entry-block pop count vs. declared stack effect; constant-fee analysis of the slot's gas functions; table-slot and constructor-clone queries",
+         "DESIGN.md 5 C12",
+         "Structural sufficient condition: each journal instruction only pops its declared operands (on every path), reads memory/state through read-only accessors, writes only the recorder and the scratch hasher, returns nil data, never moves pc; its fee is one positive compile-time constant independent of all parameters and equal across the eight slots, installed in the base table every fork inherits; malformed operands end in an ordinary error, never STOP/REVERT tokens.",
+         "the relational statement (program with journal opcode vs. pops) is implied, not executed; that the recorder is side-effect free is C01 R1.4a. " + TRUST),
+ "C10": ("SSA provenance of the account and call-index arguments from the journal instructions down to the per-call map update; who-may-write; clone rule on Contract/delegation code",
+         "DESIGN.md 5 C10",
+         "Structural necessary conditions: every journal instruction files under scope.Contract.Address() (the same value it reads storage with) into the interpreter's own recorder; the recorder stamps CurrentCallIndex() = index of the call-tree cursor at that moment; the index reaches the per-call map key unchanged; the delegation semantics of Contract.Address are the reference's.",
+         "collapse of immediate repeats (value comparison) and all history-dependent clauses are not decided; cursor correctness is C07. " + TRUST),
 }
 
 NA = {}
